@@ -83,6 +83,7 @@ use crate::{
 
 #[cfg(test)]
 mod tests;
+#[cfg(libp2p_verif)] #[path = "verif_gs_unit_beh.rs"] mod verif_gs_unit_beh;
 
 /// IDONTWANT cache capacity.
 const IDONTWANT_CAP: usize = 10_000;
